@@ -35,20 +35,30 @@ Theorem C09_verifiers_unguarded_refuted :
 Proof. exact verifiers_unguarded_refuted. Qed.
 Print Assumptions C09_verifiers_unguarded_refuted.
 
-(* (c) both routers and the directly called handler functions, every request shape:
-   exactly one error response, or the grant logic answers *)
+(* (c) both routers and the directly called handler functions, every request shape, with or
+   without a failing first storage call; and valid revocation / introspection / userinfo requests
+   whose k-th storage call fails: exactly one error response, or the grant logic answers *)
 Theorem C09_handlers_total :
-  forall s : shape, match handler true s with OResp _ _ | OGrant => True | _ => False end.
+  (forall s : shape, match handler true s with OResp _ _ | OGrant | OFault => True | _ => False end) /\
+  (forall x : xshape, match xhandler true x with OResp _ _ | OGrant | OFault => True | _ => False end).
 Proof. exact handlers_total. Qed.
 Print Assumptions C09_handlers_total.
 
-(* error written => nothing after it runs: every check of every handler returns after
-   answering, and a returning failed check ends the run whatever follows it *)
+(* error written => nothing after it runs: every check and every storage-error exit of every
+   handler returns after answering, and a returning failed check / failed storage call ends the
+   run whatever follows it *)
 Theorem C09_error_then_stop :
   (forall s : shape, forallb returns (checks true s) = true) /\
-  (forall pre st c post, forallb passes pre = true -> run (pre ++ CFail st c true :: post) = OResp st c).
+  (forall x : xshape, forallb returns (xchecks true x) = true) /\
+  (forall pre st c post, forallb passes pre = true -> run (pre ++ CFail st c true :: post) = OResp st c) /\
+  (forall pre post, forallb passes pre = true -> run (pre ++ CStore true true true :: post) = OFault).
 Proof. exact error_then_stop. Qed.
 Print Assumptions C09_error_then_stop.
+
+(* seeded regression: op.Revoke not returning after the 500 for a failed GetRefreshTokenInfo goes on *)
+Theorem C09_revoke_unfixed_refuted : exists x, xhandler false x = OContinued.
+Proof. exact revoke_unfixed_refuted. Qed.
+Print Assumptions C09_revoke_unfixed_refuted.
 
 (* F03: without the return after the parse error, Basic credentials with a bad escape panic CodeExchange *)
 Theorem C09_handlers_unfixed_refuted : exists s, handler false s = OPanic.
